@@ -73,37 +73,73 @@ Lemma conc_return_after_reload :
     verifies t (published f2_cfg (g_st (crun fx_all f2_cfg (firstn 3 sched) (cinit (ex_st ex_A) [ex_call "alice" 1000000000000])))) = true.
 Proof. eexists. cbv zeta. split; [vm_compute; reflexivity|]. vm_compute. repeat split. Qed.
 
-(* ------------------------------------------------------------------ the fine machine (C16/ConcFine.v) *)
-From HV Require Import C16.ConcFine.
+(** C16-F1 as it was (cache key without the key itself; the repair of F2 alone does not help): the store is
+    replaced by one with the same key id and algorithm but another key; a call that starts afterwards is handed
+    the token of the replaced key from the cache.  With both repairs the same schedule makes it sign afresh *)
+Definition ex_A2 : pem_file := PemOk [f2_entry 9 "key-a"].
+Definition ex_sched_F1 : list sev :=
+  [SThread 0; SThread 0; SThread 0; SThread 0; SThread 0; SReload ex_A2;
+   SThread 1; SThread 1; SThread 1; SThread 1; SThread 1].
+Definition ex_calls_F1 : list call := [ex_call "alice" 1000000000000; ex_call "alice" 1001000000000].
 
-(** two calls, one reload to B, one JWKS request.  Call 0 is inside its Hash() section when the reload wants
-    the lock: the reload waits (its step changes nothing); once call 0 has released the lock the reload takes
-    it, and call 1's RLock and the JWKS request wait while it assigns the three fields one by one; call 0
-    signs after the reload (with B's key), call 1 as well; the JWKS answer is B's set *)
-Definition fx_sched : list fev :=
-  [FEx 0; FEx 0;            (* call 0: RLock, jwk := s.jwk *)
-   FRl 0;                   (* reload: parse ok, Lock refused (a reader holds the mutex) *)
-   FEx 0;                   (* call 0: RUnlock, cache key (under A) *)
-   FRl 0; FRl 0;            (* reload: Lock, s.jwk = *)
-   FEx 1; FJw 0;            (* call 1 and the JWKS request: RLock refused (the writer holds the mutex) *)
-   FEx 0;                   (* call 0: cache lookup (miss) *)
-   FEx 0;                   (* call 0: RLock refused *)
-   FRl 0; FRl 0; FRl 0;     (* reload: s.key =, s.pubKeys =, Unlock *)
-   FEx 0; FEx 0; FEx 0; FEx 0; FEx 0; FEx 0;   (* call 0: RLock, reads, RUnlock+sign, Set, return *)
-   FJw 0; FJw 0; FJw 0;
-   FEx 1; FEx 1; FEx 1; FEx 1; FEx 1].         (* call 1: Hash() section, lookup: hit *)
+Lemma conc_F1_pinned_refuted :
+  exists t0 t1,
+    let g := crun {| fx_F1 := false; fx_F2 := true |} f2_cfg ex_sched_F1 (cinit (ex_st ex_A) ex_calls_F1) in
+    result 0 g = Some (Ok t0) /\ result 1 g = Some (Ok t0) /\
+    t_key t0 = Priv (r_key (f2_entry 7 "key-a")) /\ s_key (g_st g) = Priv (r_key (f2_entry 9 "key-a")) /\
+    verifies t0 (published f2_cfg (g_st g)) = false /\
+    result 1 (crun fx_all f2_cfg ex_sched_F1 (cinit (ex_st ex_A) ex_calls_F1)) = Some (Ok t1) /\
+    t_key t1 = Priv (r_key (f2_entry 9 "key-a")).
+Proof. do 2 eexists. cbv zeta. split; [vm_compute; reflexivity|]. vm_compute. repeat split. Qed.
+
+(* ------------------------------------------------------------------ the fine machine (C16/ConcGen.v) *)
+From HV Require Import C16.Locks C16.ConcSkel C16.ConcGen.
+
+(** two calls, one reload to B, one JWKS request, with the section programs of the tree as it is ([progs_now]).
+    Call 0 is inside its Hash() section when the reload wants the lock: the reload waits (its step changes
+    nothing); once call 0 has released the lock the reload takes it, and call 1's RLock and the JWKS request
+    wait while it assigns the three fields one by one; call 0 signs after the reload (with B's key), call 1
+    reuses that token; the JWKS answer is B's set *)
+Definition fx_sched : list gev :=
+  [GEx 0; GEx 0;            (* call 0: RLock, jwk := s.jwk *)
+   GRl 0;                   (* reload: parse ok, Lock refused (a reader holds the mutex) *)
+   GEx 0;                   (* call 0: RUnlock, cache key (under A) *)
+   GRl 0; GRl 0;            (* reload: Lock, s.jwk = *)
+   GEx 1; GJw 0;            (* call 1 and the JWKS request: RLock refused (the writer holds the mutex) *)
+   GEx 0;                   (* call 0: cache lookup (miss) *)
+   GEx 0;                   (* call 0: RLock refused *)
+   GRl 0; GRl 0; GRl 0;     (* reload: s.key =, s.pubKeys =, Unlock *)
+   GEx 0; GEx 0; GEx 0; GEx 0; GEx 0; GEx 0;   (* call 0: RLock, reads, RUnlock+sign, Set, return *)
+   GJw 0; GJw 0; GJw 0;
+   GEx 1; GEx 1; GEx 1; GEx 1; GEx 1].         (* call 1: Hash() section, lookup: hit *)
 
 Lemma fine_nonvacuous :
-  let g0 := finit (ex_st ex_A) [ex_call "alice" 1000000000000; ex_call "alice" 1001000000000] [ex_B] 1 in
-  let at_ n := frun fx_all f2_cfg (firstn n fx_sched) g0 in
+  let g0 := ginit (ex_st ex_A) [ex_call "alice" 1000000000000; ex_call "alice" 1001000000000] [ex_B] 1 in
+  let at_ n := grun fx_all progs_now f2_cfg (firstn n fx_sched) g0 in
   exists t,
-    map et_pc (f_exs (at_ 27)) = [EDone (Ok t); EDone (Ok t)] /\ t_kid t = "key-b" /\
-    map rt_pc (f_rls (at_ 3)) = [RInit] /\ writers (at_ 5) = true /\
-    map et_pc (f_exs (at_ 8)) = [EKeyed (key_of fx_all f2_cfg (ex_st ex_A) (q_of "alice")); EInit] /\ f_jws (at_ 8) = [JInit] /\
+    map gt_pc (h_exs (at_ 27)) = [GDone (Ok t); GDone (Ok t)] /\ t_kid t = "key-b" /\
+    map grt_pc (h_rls (at_ 3)) = [GRInit] /\ gwriters (at_ 5) = true /\
+    map gt_pc (h_exs (at_ 8)) = [GKeyed (key_of fx_all f2_cfg (ex_st ex_A) (q_of "alice")); GInit] /\ h_jws (at_ 8) = [GJInit] /\
     (* torn in the middle of the write section, but nobody can look *)
-    s_jwk (f_sh (at_ 8)) = s_jwk (ex_st ex_B) /\ s_key (f_sh (at_ 8)) = s_key (ex_st ex_A) /\
-    f_sh (at_ 13) = ex_st ex_B /\ writers (at_ 13) = false /\
-    f_jwks (at_ 27) = [[spec_jwk (f2_entry 8 "key-b")]] /\
-    tr_sched fx_all f2_cfg g0 fx_sched =
+    s_jwk (h_sh (at_ 8)) = s_jwk (ex_st ex_B) /\ s_key (h_sh (at_ 8)) = s_key (ex_st ex_A) /\
+    h_sh (at_ 13) = ex_st ex_B /\ gwriters (at_ 13) = false /\
+    h_jwks (at_ 27) = [[spec_jwk (f2_entry 8 "key-b")]] /\
+    gtr_sched fx_all progs_now f2_cfg g0 fx_sched =
       [SThread 0; SReload ex_B; SThread 0; SThread 0; SThread 0; SThread 0; SJwks; SThread 1; SThread 1; SThread 1].
 Proof. cbv zeta. eexists. vm_compute. repeat split. Qed.
+
+(** other programs the theorems cover as well: Hash reads jwk twice, Sign reads the key before the JWK, load
+    assigns the published set first; and programs they do not: a Sign section that never reads the key *)
+Definition progs_alt : progs :=
+  {| p_hash := [FJwk; FJwk]; p_sign := [FKey; FJwk]; p_keys := [FPub]; p_load := [FPub; FKey; FJwk; FPub] |}.
+
+Lemma progs_examples :
+  progs_ok progs_now = true /\ progs_ok progs_alt = true /\
+  progs_ok {| p_hash := [FJwk]; p_sign := [FJwk]; p_keys := [FPub]; p_load := [FJwk; FKey; FPub] |} = false /\
+  progs_ok {| p_hash := [FJwk]; p_sign := [FJwk; FKey]; p_keys := [FPub]; p_load := [FJwk; FKey] |} = false /\
+  programs skeleton_now xs_fixed = Some progs_now /\
+  (* a Sign that takes the read lock once per field is not one section: no programs *)
+  programs [("load", [ELock; EDeferUnlock; EWrite FJwk; EWrite FKey; EWrite FPub; ERet]); ("Hash", [ERLock; ERead FJwk; ERUnlock]);
+            ("signWithHash", [ERLock; ERead FJwk; ERUnlock; ERLock; ERead FKey; ERUnlock; ERet]);
+            ("Keys", [ERLock; EDeferRUnlock; ERead FPub; ERet])] xs_fixed = None.
+Proof. vm_compute. repeat split. Qed.
